@@ -57,6 +57,7 @@ LEVEL_NOTE = ("Trusted: Lean kernel; axioms propext/Classical.choice/Quot.sound 
               "Proved about the model, measured against the code. 'lt 1' and 'gt 65535' (empty denotation) are rejected by the "
               "code; the theorems state that and the oracle accepts either an empty list or a rejection there.")
 LEVEL_NOTE += (" " + "regexes_as_modelled (Ccp.RxC20): the five ASA regexes (_RE_NAMES, _RE_OBJNET, _RE_OBJACL of ConfigList as used by the three asa_* tables, the name regex of ASAObjGroupNetwork.__init__, _RE_NETOBJECT), _RE_NAMEOBJECT, and the keyword / separator tests of L4Object.__init__, network_strings and the two is_object_for are re-read from /repo's AST on every run and proved equal to the literals the token matchers of Model/Asa.lean were written for.")
+LEVEL_NOTE += (" Scan sets as revised: regexes_as_modelled ties the regex-engine calls with the pattern in canonical form (canonical verbose form without the flag, group names and redundant escapes removed, per-value specialisation of a pattern passed to a same-file helper or built from a name that ranges over a constant collection, always-true searches left out), flags, re.sub replacements and the separator arguments of str.split/join/replace/strip; the literal tests (\"lit\" in x, == against string literals and their subscripts, startswith) are informational definitions Gen.rx...Info, no theorem is about them.")
 EXHAUSTIVE = {"quick": False, "thorough": False}
 ASSUMPTIONS = [
     "regexes _RE_NAMES, _RE_OBJNET, _RE_OBJACL, _RE_NETOBJECT and the group-name regex behave like the token matchers of Model/Asa.lean (\\s = str.isspace, \\d = ASCII digit)",
@@ -84,7 +85,15 @@ def service_tables():
         for node in ast.walk(tree):
             if isinstance(node, ast.Assign) and len(node.targets) == 1 and isinstance(node.targets[0], ast.Name):
                 if node.targets[0].id in ("ASA_TCP_PORTS", "ASA_UDP_PORTS"):
-                    out[node.targets[0].id] = {str(k): int(v) for k, v in ast.literal_eval(node.value).items()}
+                    try:
+                        value = ast.literal_eval(node.value)
+                    except ValueError:
+                        # not a plain literal any more (dict(zip(...)), {**a, ...}): the translator's constant-expression
+                        # evaluator reads it (still nothing imported)
+                        import constexpr
+                        import rxscan
+                        value = constexpr.ceval(node.value, rxscan.Scope(tree))
+                    out[node.targets[0].id] = {str(k): int(v) for k, v in value.items()}
         _tables = {"tcp": out["ASA_TCP_PORTS"], "udp": out["ASA_UDP_PORTS"]}
     return _tables
 
